@@ -434,6 +434,23 @@ def r_mgr_total(e, R):
                     "popitem() on a table that " + (f"{sorted(set(others))} also remove entries from" if others else "may be empty") +
                     " is neither handled (except KeyError) nor excluded by its loop guard: the manager thread dies in the middle of failing / joining everything",
                     e.loc(f, c))
+    # starting a process can fail (fork/exec: EAGAIN, EMFILE, ENOMEM; building the preparation data: os.getcwd() of a removed
+    # directory, an unpicklable initializer): when the manager thread itself re-spawns a worker, that failure must not end the thread
+    spawnq = a.spawn_func.qualname
+    for q in sorted(a.manager_funcs):
+        f = e.prog.funcs[q]
+        if not manager_only_(e, q) or q == spawnq:
+            continue
+        for c in [x for x in func_nodes(f) if isinstance(x, ast.Call) and spawnq in e.callees_of(x)]:
+            n += 1
+            handled = False
+            for cn in cfg_nodes(e, f, c):
+                hs = [m for m, l in cn.succ if l == "exc" and m.kind == "except"]
+                handled = handled or any(h.ast.type is None or any(k in norm(h.ast.type) for k in ("OSError", "Exception", "BaseException")) for h in hs)
+            R.check(handled, "R-MGR-TOTAL", f"{f.short}: a failing re-spawn cannot kill the manager thread", f.short, "re-spawn on the manager thread outside any handler",
+                    f"`{norm(c)[:50]}` starts worker processes on the executor manager thread outside any handler: when a start fails (EAGAIN / EMFILE / ENOMEM from "
+                    "fork_exec, FileNotFoundError from os.getcwd() in the preparation data) the exception ends the thread: the pending futures never resolve, the "
+                    "executor is not flagged broken and shutdown(wait=True) hangs", e.loc(f, c))
     R.info["mgr_total_partial_calls"] = n
     if n < 1:
         R.ok("R-MGR-TOTAL", "no value-partial stdlib call on the manager's detection path", None)
